@@ -58,7 +58,10 @@ def digest (bs : List UInt8) : String :=
   let hexDigits := (List.range 16).map fun i => hexChar ((h >>> (UInt64.ofNat (60 - 4 * i))).toNat % 16)
   s!"{bs.length}:{String.ofList hexDigits}"
 
-def strToHex (s : String) : String := toHex s.toUTF8.toList
+/-- inverse of `hexToStr?` (which reads each byte as one character): characters below 256 are single
+    bytes; anything else is written in UTF-8 -/
+def strToHex (s : String) : String :=
+  toHex (s.toList.flatMap fun c => if c.toNat < 256 then [c.toNat.toUInt8] else (String.singleton c).toUTF8.toList)
 
 def hexToStr? (h : String) : Option String :=
   (parseHex? h).map fun bs => String.ofList (bs.map fun b => Char.ofNat b.toNat)
